@@ -290,10 +290,12 @@ class Gen:
         if has_order and f['softorder']:
             objs.append({"type": "tour-order"})
         extra = r.choice([None, "minimize-tours", "maximize-tours", "balance-max-load", "balance-activities",
-                          "balance-distance", "balance-duration", "minimize-arrival-time", "fast-service", "compact-tour", "multi"])
+                          "balance-distance", "balance-duration", "minimize-arrival-time", "fast-service", "compact-tour", "multi", "multi"])
         if extra == "multi":
-            objs.append({"type": "multi-objective", "strategy": {"name": "sum"},
-                         "objectives": [{"type": "minimize-tours"}, cost]})
+            # one competitive layer: the cost with the number of tours, or with another objective that keeps state of its own
+            other = r.choice([{"type": "minimize-tours"}, {"type": "minimize-tours"}, {"type": "fast-service"}, {"type": "compact-tour", "job_radius": 2}]
+                             + ([{"type": "tour-order"}] if has_order and f['softorder'] and not any(o.get("type") == "tour-order" for o in objs) else []))
+            objs.append({"type": "multi-objective", "strategy": {"name": "sum"}, "objectives": [other, cost] if r.random() < 0.5 else [cost, other]})
             return objs
         if extra == "compact-tour":
             objs.append({"type": "compact-tour", "job_radius": 2})
